@@ -1292,6 +1292,15 @@ def _mutate_boundary(rng, call):
         L = max(0, req + delta)
         _grow(rng, b, (L, 1) if rng.random() < 0.7 else (1, L))
         what = "len:%s%+d" % (op["buf"], delta)
+        if rng.random() < 0.5:
+            # the other operands get slack: a wrapper that sizes one operand by the wrong rule (e.g. the 'N' rule for
+            # trans = 'C') rejects every call with tight buffers for the *other* operand's sake, and the short one is
+            # never seen to be accepted
+            for nm, ob in call["bufs"].items():
+                if ob is not b and isinstance(ob, dict) and "data" in ob:
+                    Lo = int(ob["size"][0]) * int(ob["size"][1]) + rng.randint(1, 8)
+                    _grow(rng, ob, (Lo, 1))
+            what += "+slack"
     elif kind == "off" and ops:
         op = rng.choice(ops)
         call["args"][op["offname"]] = op["off"] + delta
@@ -1427,7 +1436,7 @@ def _mutate_illegal(rng, call):
 
 
 def gen_call(rng, name, stratum):
-    """stratum 1: consistent; 2: boundary boxes; 3: type conflicts / illegal values.
+    """stratum 1: consistent; 2: boundary boxes; 3: type conflicts / illegal values; 4: one operand one element short.
     rng is a random.Random; all randomness comes from it."""
     call = _gen_call(rng, name, stratum)
     # drawn last, so that it does not influence the call itself: pass the required arguments by keyword too
@@ -1455,6 +1464,25 @@ def _gen_call(rng, name, stratum):
         # the mutation moved the addressed elements: give them data again (solves: conditioned triangle)
         _fill(rng, call, "float")
         call["meta"]["stratum"] = 2
+        return call
+    if stratum == 4:
+        # short sweep: an exactly consistent call, then ONE operand buffer one element too short while every other
+        # operand gets slack.  Each wrapper has one hand-written length test per operand and per flag value; this
+        # stratum visits (function, flags, operand) triples directly instead of waiting for stratum 2 to draw them.
+        call = _gen_base(rng, name, False, tight=True, nozero=True)
+        r = resolve(call)
+        ops = [op for op in r.ops if op["used"] and op["off"] + contract_len(op) >= 1]
+        if ops:
+            op = rng.choice(ops)
+            b = call["bufs"][op["buf"]]
+            _grow(rng, b, (op["off"] + contract_len(op) - 1, 1))
+            for nm, ob in call["bufs"].items():
+                if ob is not b and isinstance(ob, dict) and "data" in ob:
+                    Lo = int(ob["size"][0]) * int(ob["size"][1]) + rng.randint(1, 8)
+                    _grow(rng, ob, (Lo, 1))
+            call["meta"]["mut"] = "short:%s" % op["buf"]
+        _fill(rng, call, "float")
+        call["meta"]["stratum"] = 4
         return call
     friendly = rng.random() < 0.4
     call = _gen_base(rng, name, friendly, nozero=rng.random() < 0.9)
